@@ -40,7 +40,7 @@ NQ = 8
 EXCLUDE = set()  # {"shared_simulator.with_seed"} was excluded until the defect was fixed in /repo (b5a0a50)
 UNSET = "unset"
 
-SEEDS = [None, 1, 1, 2, 2, 3]
+SEEDS = [None, 0, 0, 1, 1, 2, 2, 3, 2**32, 2**63 - 1]
 SIMS = ["Quest", "Stim", "Coinflip"]
 SIM_OF_METHOD = {"statevector_sim": "Quest", "stabilizer_sim": "Stim", "coinflip_sim": "Coinflip"}
 PLUGIN_NAME = {"Quest": "QuestPlugin", "Stim": "StimPlugin", "Coinflip": "CoinflipPlugin"}
